@@ -50,6 +50,19 @@ static std::string k_dynamic_ull() { size_t n = 3; int cnt[3] = {0, 0, 0};
     #pragma omp parallel for schedule(dynamic)
     for (size_t i = 0; i < n; i++) cnt[i]++;
     return std::to_string(cnt[0]) + std::to_string(cnt[1]) + std::to_string(cnt[2]); }
+static double g_d;
+static std::string k_plain_vs_atomic() { g_d = 0;
+    #pragma omp parallel
+    { if (omp_get_thread_num() == 0) { double t = g_d; vomp::sched_point("between load and store"); g_d = t - 1.0; } else {
+        #pragma omp atomic update
+        g_d += 1.0; } }
+    return std::to_string(g_d); }
+static std::string k_atomic_only() { g_d = 0;
+    #pragma omp parallel
+    {
+        #pragma omp atomic update
+        g_d += 1.0; }
+    return std::to_string(g_d); }
 static std::string k_deadlock() { g_x = 0;
     #pragma omp parallel
     { if (omp_get_thread_num() == 0) { omp_set_lock(&g_l1); vomp::sched_point("holding l1"); omp_set_lock(&g_l2); g_x++; omp_unset_lock(&g_l2); omp_unset_lock(&g_l1); }
@@ -59,22 +72,27 @@ static std::string k_deadlock() { g_x = 0;
 struct Report { std::string error; long schedules = 0; std::string detail; };
 // expectations: the exact set of outcomes at the stated bound, and whether some schedule must deadlock
 inline Report run() {
-    Report r; struct T { const char* name; std::string (*k)(); int team, bound; std::set<std::string> expect; bool expect_deadlock; };
+    Report r; struct T { const char* name; std::string (*k)(); int team, bound; std::set<std::string> expect; bool expect_deadlock; int expect_race; /* lockset builds: 1 = the detector must report a race in every execution, 0 = in none */ };
     std::vector<T> tests = {
-        {"lost update, no preemption", k_lost_update, 2, 0, {"2"}, false},
-        {"lost update, one preemption", k_lost_update, 2, 1, {"1", "2"}, false},
-        {"critical section", k_critical, 2, 2, {"2"}, false},
-        {"barrier", k_barrier, 2, 2, {"22"}, false},
-        {"no barrier", k_no_barrier, 2, 1, {"12", "21", "22"}, false},
-        {"single", k_single, 2, 1, {"1by0", "1by1"}, false},
-        {"dynamic loop", k_dynamic, 2, 2, {"3:000", "3:001", "3:010", "3:011", "3:100", "3:101", "3:110", "3:111"}, false},
-        {"dynamic loop (unsigned long long)", k_dynamic_ull, 3, 1, {"111"}, false},
-        {"lock order inversion", k_deadlock, 2, 1, {}, true},
+        {"lost update, no preemption", k_lost_update, 2, 0, {"2"}, false, 1},
+        {"lost update, one preemption", k_lost_update, 2, 1, {"1", "2"}, false, 1},
+        {"critical section", k_critical, 2, 2, {"2"}, false, 0},
+        {"barrier", k_barrier, 2, 2, {"22"}, false, 0},
+        {"no barrier", k_no_barrier, 2, 1, {"12", "21", "22"}, false, 1},
+        {"single", k_single, 2, 1, {"1by0", "1by1"}, false, 0},
+        {"dynamic loop", k_dynamic, 2, 2, {"3:000", "3:001", "3:010", "3:011", "3:100", "3:101", "3:110", "3:111"}, false, 0},
+        {"dynamic loop (unsigned long long)", k_dynamic_ull, 3, 1, {"111"}, false, 0},
+        {"lock order inversion", k_deadlock, 2, 1, {}, true, -1},
+        {"plain store against atomic update", k_plain_vs_atomic, 2, 1, {"0.000000", "-1.000000"}, false, 1},
+        {"atomic updates only", k_atomic_only, 2, 1, {"2.000000"}, false, 0},
     };
-    for (auto& t : tests) { vomp::Explorer E; E.team = t.team; E.bound = t.bound; E.scenario = t.k; vomp::set_state_hash(hash_x); bool dl = false, bad = false; E.judge = [&](const vomp::Execution& x) { if (x.deadlock) dl = true; if (x.diverged || x.overflow) bad = true; };
+    for (auto& t : tests) { vomp::Explorer E; E.team = t.team; E.bound = t.bound; E.scenario = t.k; vomp::set_state_hash(hash_x); bool dl = false, bad = false; long with_race = 0, without_race = 0; E.judge = [&](const vomp::Execution& x) { if (x.deadlock) dl = true; if (x.diverged || x.overflow) bad = true; if (x.races.empty()) without_race++; else with_race++; };
         E.explore({}); r.schedules += E.executions; std::set<std::string> got; for (auto& o : E.outcomes) got.insert(o);
         std::string gs; for (auto& o : got) gs += o + " "; r.detail += std::string(t.name) + " [bound " + std::to_string(t.bound) + ", " + std::to_string(E.executions) + " schedules]: " + gs + (dl ? "(deadlock found) " : "") + "; ";
         if (bad) { r.error = std::string("self-test '") + t.name + "': schedule diverged or trace overflow"; break; }
+        if (vomp::lset_drain && t.expect_race == 1 && without_race) { r.error = std::string("self-test '") + t.name + "': the lockset detector missed the race in " + std::to_string(without_race) + " executions"; break; }
+        if (vomp::lset_drain && t.expect_race == 0 && with_race) { r.error = std::string("self-test '") + t.name + "': the lockset detector reported a race in correctly synchronised code"; break; }
+        if (vomp::lset_drain) r.detail += (with_race ? "[race reported in " + std::to_string(with_race) + "/" + std::to_string(with_race + without_race) + " executions] " : std::string("[no race reported] "));
         if (t.expect_deadlock) { if (!dl) { r.error = std::string("self-test '") + t.name + "': the deadlock was not found"; break; } continue; }
         if (dl) { r.error = std::string("self-test '") + t.name + "': spurious deadlock"; break; }
         if (got != t.expect) { r.error = std::string("self-test '") + t.name + "': outcomes {" + gs + "} differ from the expected set"; break; } }
